@@ -23,11 +23,18 @@ def fx(t):
 
 
 def parse_lnet(out):
-    d = {"points": {}, "obs": [], "rows": [], "unknowns": {}, "exc": None, "removed": []}
+    d = {"points": {}, "obs": [], "rows": [], "unknowns": {}, "exc": None, "removed": [], "pass2": None}
+    top = d
     for l in out.split("\n"):
         w = l.split()
         if not w:
             continue
+        if w[0] == "PASS":
+            d = {"points": {}, "obs": [], "rows": [], "unknowns": {}, "exc": None, "removed": [], "xnorth": top.get("xnorth", 0.0)}
+            top["pass2"] = d
+            continue
+        if w[0] in ("MINN", "DEFECT", "X", "R", "VWV", "LINDEP", "REMOVED", "EXC", "END"):
+            d = top
         if w[0] == "POINT":
             d["points"][w[1]] = {"x": fx(w[2]), "y": fx(w[3]), "z": fx(w[4]), "flags": w[5], "ix": int(w[6]), "iy": int(w[7]), "iz": int(w[8]),
                                  "has_xy": w[2] != "-", "has_z": w[4] != "-"}
@@ -59,7 +66,7 @@ def parse_lnet(out):
             d["lindep"] = [int(v) for v in w[1:]]
         elif w[0] == "REMOVED":
             d["removed"] = w[1:]
-    return d
+    return top
 
 
 def roles_of(d, ob):
@@ -184,6 +191,17 @@ def gen_net(rng):
     net, truth, meta = netgen.make_network(rng, dim=dim, n=n, n_fixed=rng.randint(2, 3), datum=datum, kinds=kinds, extra=1.2,
                                            perturb=rng.choice([0.0, 0.02, 0.3]), with_heights=rng.random() < 0.5)
     ids = [p["id"] for p in net["points"]]
+    if dim == 3 and rng.random() < 0.6:
+        # height-only benchmarks tied to the 3D points by levelled height differences
+        hd = []
+        for j in range(rng.randint(1, 2)):
+            hid = "H%d" % (j + 1)
+            z = 300.0 + rng.uniform(-20, 20)
+            truth[hid] = (0.0, 0.0, z)
+            net["points"].insert(rng.randrange(len(net["points"]) + 1), {"id": hid, "z": z + rng.uniform(-0.01, 0.01), "adj": "z"})
+            for q in rng.sample(ids, 2):
+                hd.append({"t": "dh", "from": q, "to": hid, "val": z - truth[q][2] + rng.gauss(0, 0.002), "stdev": 2.0})
+        net["clusters"].append({"kind": "height-differences", "obs": hd})
     if rng.random() < 0.6:
         netgen.add_coordinates_cluster(rng, net, truth, rng.sample(ids, 2), dim=dim, cov_band=rng.choice([None, 1]))
     if dim == 3 and rng.random() < 0.6:
@@ -191,6 +209,29 @@ def gen_net(rng):
         netgen.add_vectors_cluster(rng, net, truth, prs, cov_band=rng.choice([None, 2]))
     if rng.random() < 0.6:
         netgen.add_azimuths(rng, net, truth, [tuple(rng.sample(ids, 2)) for _ in range(2)])
+    # angles whose observed value and computed value straddle the 0/400 gon wrap: a new fixed point on the ray
+    # station -> backsight, half a millimetre to the left or right of it
+    if dim in (2, 3):
+        for _ in range(rng.randint(1, 3)):
+            st, bs = rng.sample(ids, 2)
+            A, B = truth[st], truth[bs]
+            k = rng.uniform(1.3, 2.0)
+            off = rng.choice([-1, 1]) * rng.uniform(1e-4, 8e-4)
+            L = math.hypot(B[0] - A[0], B[1] - A[1])
+            nx, ny = -(B[1] - A[1]) / L, (B[0] - A[0]) / L
+            C = (A[0] + k * (B[0] - A[0]) + off * nx, A[1] + k * (B[1] - A[1]) + off * ny, B[2])
+            cid = "W%d" % (len(net["points"]) + 1)
+            truth[cid] = C
+            pt = {"id": cid, "x": C[0], "y": C[1], "fix": "xy"}
+            if dim == 3:
+                pt["z"] = C[2]; pt["fix"] = "xyz"
+            net["points"].append(pt)
+            ob = {"t": "angle", "bs": bs, "fs": cid, "stdev": 10.0}
+            ob["val"] = netgen.obs_value(ob, truth, 0.0, st)
+            if rng.random() < 0.5:
+                ob["bs"], ob["fs"] = cid, bs
+                ob["val"] = netgen.obs_value(ob, truth, 0.0, st)
+            net["clusters"].append({"kind": "obs", "from": st, "obs": [ob]})
     # put some observed values near the wrap: turn a direction set so that a reading is ~0 / ~400 / ~200 gon
     for c in net["clusters"]:
         if c["kind"] == "obs" and rng.random() < 0.5:
@@ -213,13 +254,40 @@ def run(ctx):
         txt = gama.render_gkf(net)
         path = ctx.scratch + "/c05_%d.gkf" % t
         open(path, "w").write(txt)
-        rc, out, err = vlib.sh([exe, path, "gso"], timeout=60)
+        rc, out, err = vlib.sh([exe, path, "gso", "twice"], timeout=60)
         d = parse_lnet(out)
+        d2 = d.get("pass2")
+        if rc == 0 and not d["exc"] and d2 is not None:
+            # index assignment: the unknowns used by the rows are exactly 1..n, one per free coordinate / orientation, in both passes
+            for name, dd in (("first", d), ("second", d2)):
+                used = sorted(set(i for r in dd["rows"] for i in r["idx"]))
+                owners = {}
+                for pid, p in dd["points"].items():
+                    for kx in ("ix", "iy", "iz"):
+                        if p[kx]:
+                            owners.setdefault(p[kx], []).append((pid, kx))
+                for ob in dd["obs"]:
+                    if ob["iori"]:
+                        owners.setdefault(ob["iori"], [])
+                        if ("ori", ob["from"]) not in owners[ob["iori"]]:
+                            owners[ob["iori"]].append(("ori", ob["from"]))
+                dup = {i: o for i, o in owners.items() if len(o) > 1}
+                if dup or (used and used != list(range(1, len(used) + 1))):
+                    ctx.violation({"kind": "K:index-assignment", "gkf": txt, "pass": name, "shared_unknowns": {str(k): v for k, v in dup.items()}, "used": used},
+                                  "index assignment is not a bijection in the %s build of the project equations: %s" % (name, dup or used))
+                    bad += 1
+                    break
+            if len(d2["rows"]) != len(d["rows"]):
+                ctx.violation({"kind": "K:rebuild", "gkf": txt}, "rebuilding the project equations changed the number of rows"); bad += 1
         if rc != 0 or d["exc"] or len(d["obs"]) != len(d["rows"]):
             ctx.violation({"kind": "K:linearization", "gkf": txt, "rc": rc, "exc": d["exc"], "stderr": err[-800:]},
                           "harness failed on a generated network: rc=%d %s" % (rc, d["exc"]))
             bad += 1
             continue
+        if d2 is not None and len(d2["obs"]) == len(d2["rows"]):
+            for k in range(len(d2["obs"])):
+                rows_v.append(coq_row(d2, k))
+                meta_rows.append((t, k, d2, txt))
         for k in range(len(d["obs"])):
             rows_v.append(coq_row(d, k))
             meta_rows.append((t, k, d, txt))
@@ -234,7 +302,7 @@ def run(ctx):
     shard = 400
     badidx = []
     for s0 in range(0, len(rows_v), shard):
-        v = "From Coq Require Import List Floats.\nFrom Gama Require Import LinRun.\nImport ListNotations.\nLocal Open Scope float_scope.\n" \
+        v = "From Coq Require Import List Floats NArith.\nFrom Gama Require Import LinRun.\nImport ListNotations.\nLocal Open Scope float_scope.\n" \
             "Definition rows : list lrow := [\n%s\n].\n" % ";\n".join(rows_v[s0:s0 + shard]) + \
             'Goal True. idtac "@@ROWS". Abort.\nEval vm_compute in bad_rows rows.\n'
         rc, cout = vlib.coq_run(v, ctx.scratch, name="cases_c05_%d" % s0, timeout=900)
